@@ -380,7 +380,26 @@ pub fn format_function_args(
                 && arguments.len() == 1
                 && !matches!(call_next_node, FunctionCallNextNode::ObscureWithoutParens)
             {
-                let argument = arguments.iter().next().unwrap();
+                let mut argument = arguments.iter().next().unwrap();
+
+                // Redundant parentheses around a lone string or table are removed when the argument is formatted:
+                // look through them (unless they carry comments), so that `f(("s"))` is treated as `f("s")`
+                while let Expression::Parentheses {
+                    contained,
+                    expression,
+                } = argument
+                {
+                    if !matches!(
+                        **expression,
+                        Expression::String(_)
+                            | Expression::TableConstructor(_)
+                            | Expression::Parentheses { .. }
+                    ) || trivia_util::contains_comments(contained)
+                    {
+                        break;
+                    }
+                    argument = expression;
+                }
 
                 // Take any trailing trivia from the end parentheses, in case we need to keep it
                 let trailing_comments = parentheses.tokens().1.trailing_trivia().cloned().collect();
